@@ -258,7 +258,9 @@ def run(ctx):
     # plants / CHP units (binary variables per step of their own window) that start inside the horizon
     plants = gen.gen_many_plants(ctx.seed, n // 3, dict(CFG, freqs=['h'], units=['h'], tzs=[None], T=(5, 9), p_unaligned_end=0.0, p_window_plant=0.9, p_profile=0.0,
                                                         p_coarse=0.0, p_periodic=0.0, p_inflow=0.0), 'c08pl_')
-    specs = ctx.specs(util.corpus(ctx.prop) + gen.gen_many(ctx.seed, n, CFG, 'c08_') + zoned + early + struct + plants)
+    # scaled assets with a life time of their own (fix costs count for the part of it inside the horizon)
+    scaled = gen.gen_many(ctx.seed, n // 3, dict(CFG, p_coarse=0.0, p_window_scaled=0.9, kinds={'ScaledAsset': 4, 'SimpleContract': 1}, n_assets=(1, 3)), 'c08sc_')
+    specs = ctx.specs(util.corpus(ctx.prop) + gen.gen_many(ctx.seed, n, CFG, 'c08_') + zoned + early + struct + plants + scaled)
     base = [sp for sp in specs if 'base_spec' not in sp and not sp['id'].endswith('+out')]
     pairs = []
     for sp in specs:
